@@ -1164,6 +1164,10 @@ class Lexer:
         comment_depth = 1
 
         while True:
+            # Lines inside the block can be indented, like any other line.
+            if match := self.RE_WHITESPACE.match(self.source, self.pos):
+                self.pos += match.end() - match.start()
+
             if match := self.RE_TAG_NAME.match(self.source, self.pos):
                 tag_name = match.group()
                 self.pos += match.end() - match.start()
